@@ -44,6 +44,10 @@ CHECKS = {
          "exactly n samples, each a convex combination of the vertices of its simplex (hence in the hull / reproducible in bounds), simplex probability = volume / total volume "
          "(compared with the harness's own determinant formula), Dirichlet(1..1) of d+1 components, all randomness from the one seeded generator, l1 total; uniformity is reduced "
          "to two stated lemmas, not decided", "4 C13"),
+ "C18": ("PARTIAL: the algebraic clauses only -- mean width (arbitrary symbolic directions from a stubbed generator): translation invariance, degree-one homogeneity (scale grid), "
+         "monotone under adding a point, non-negative, 1-D = max-min; gamut metric: scale invariance and 1 relative to itself (size functional uninterpreted); Jensen-Shannon: symmetry, "
+         "invariance to rescaling, similarity = 1 - divergence, negative input rejected (entropy uninterpreted); estimator.compute_hull hands the right cloud and reference. "
+         "Monte-Carlo accuracy, rotation invariance, volume/PCA, superset/(0,1] and the log-based Jensen-Shannon bounds are NOT decided", "4 C18"),
  "C05": ("exhaustive grid of (n_samples, batch_size) incl. non-dividing, larger-than-n and 'full' for the gaussian, poisson and excitation models: the real batching code "
          "(padding, block-diagonal stacking, scatter) runs on symbolic contents through the cvxpy shim; z3 decides per row: no exception, the result row is its own block of the "
          "stacked solution, it is optimal for its own target/weights alone (separability instance of the stacked contract), and the stacked problem is feasible whenever each row's is", "4 C05"),
